@@ -447,10 +447,9 @@ func VC05_Hist() {
 	ctx, cancel := context.WithCancel(context.Background())
 	d := q.Distributor()
 	// programs: goroutine 0 runs two operations, the others one each
+	// (three goroutines x four operations do not complete within the thorough
+	// budget; the thorough tier raises the preemption bound instead)
 	ng := 2
-	if vf.Thorough() {
-		ng = 3
-	}
 	var progs [][]*vc05rec
 	var all []*vc05rec
 	vals := map[int]int{}
